@@ -77,10 +77,24 @@ def r1(ctx):
         tgt = u(order.generators[0].target)
         ok = lfo == {"%s[1]" % tgt: 1, "": -1} and u(order.generators[0].iter) == "fields" and lf2 == {allele_v: 1, "": 1}
     ctx.ob(dec.qual, "hp-haplotype-offset", ok, dec.loc(), "writer stores allele + 1 as second field; reader subtracts 1" if ok else "second HP field: writer %s, reader %s" % (u(w_second), u(order) if order is not None else "?"))
-    # permutation applied to GT
-    ph = [v_ for _, v_ in util.assignments_to(dec.node, "phase") if isinstance(v_, ast.AST)]
-    ok = len(ph) == 2 and u(ph[0]) == "call['GT']" and u(ph[1]).replace(" ", "") == "tuple((phase[order.index(i)]foriinrange(len(order))))"
-    ctx.ob(dec.qual, "hp-permutation-of-gt", ok, dec.loc(), "decoded phase[i] = GT[position of haplotype i in the item list]" if ok else "decoder does not apply the item order as a permutation of GT")
+    # permutation applied to GT: judged on what the decoder RETURNS (path summaries, temporaries substituted)
+    def returned_kwargs(fn):
+        from sa import pathfx
+
+        kws = []
+        for ps_ in pathfx.summaries(ctx.cfg(fn), value_only=True):
+            for r_ in ps_.returns():
+                v_ = r_[1]
+                if isinstance(v_, ast.Call) and u(v_.func) == "VariantCallPhase":
+                    kws.append({k.arg: k.value for k in v_.keywords})
+        return kws
+
+    hk = returned_kwargs(dec)
+    from sa.pathfx import canon_comprehension_vars as _ccv
+
+    want_perm = "tuple((call['GT'][order.index(_c0)]for_c0inrange(len(order))))"
+    ok = bool(hk) and all("phase" in k and u(_ccv(k["phase"])).replace(" ", "") == want_perm for k in hk)
+    ctx.ob(dec.qual, "hp-permutation-of-gt", ok, dec.loc(), "decoded phase[i] = GT[position of haplotype i in the item list]" if ok else "decoder does not apply the item order as a permutation of GT: phase = %s" % ([u(k.get("phase"))[:80] for k in hk] or "?"))
     # the encoder leaves GT alone
     gt = [s for s in util.store_sites(hp.node) if s.kind == "subscript" and util.const_key(s.target) == "GT"]
     ctx.ob(hp.qual, "hp-encoder-keeps-gt", not gt, hp.loc(), "_set_HP does not touch GT (its items describe GT's alleles in GT order)" if not gt else "_set_HP rewrites GT")
@@ -90,13 +104,12 @@ def r1(ctx):
     stores = {util.const_key(s.target): s for s in util.store_sites(ps.node) if s.kind == "subscript"}
     pparams = util.params_of(ps.node)
     ok = "PS" in stores and linear(stores["PS"].value) == {pparams[2]: 1, "": 1}
-    bidp = util.single_def(dps.node, "block_id")
-    ok = ok and bidp is not None and isinstance(bidp, ast.Call) and u(bidp.func).endswith(".get") and u(bidp.args[0]) == "'PS'"
-    ctx.ob(ps.qual, "ps-block-id-offset", ok, ps.loc(), "PS = component + 1 is read back verbatim as block id" if ok else "PS write/read offsets disagree")
+    pk = returned_kwargs(dps)
+    okb = bool(pk) and all(isinstance(k.get("block_id"), ast.Call) and u(k["block_id"].func).endswith(".get") and u(k["block_id"].args[0]) == "'PS'" for k in pk)
+    ctx.ob(ps.qual, "ps-block-id-offset", ok and okb, ps.loc(), "PS = component + 1 is read back verbatim as block id" if ok and okb else "PS write/read offsets disagree")
     ok = "GT" in stores and u(stores["GT"].value) == pparams[3]
-    php = util.single_def(dps.node, "phase")
-    ok = ok and php is not None and u(php) == "call['GT']"
-    ctx.ob(ps.qual, "ps-gt-order-is-the-phase", ok, ps.loc(), "GT is written in phase-tuple order and read back verbatim" if ok else "GT order is not the phase tuple on write or not taken verbatim on read")
+    okp = bool(pk) and all(u(k.get("phase")) == "call['GT']" for k in pk)
+    ctx.ob(ps.qual, "ps-gt-order-is-the-phase", ok and okp, ps.loc(), "GT is written in phase-tuple order and read back verbatim" if ok and okp else "GT order is not the phase tuple on write or not taken verbatim on read")
     flag = [s for s in util.store_sites(ps.node) if s.kind == "attr" and s.target.attr == "phased" and isinstance(s.value, ast.Constant) and s.value.value is True]
     cfgd = ctx.cfg(dps)
     rets = [n for n in walk_function(dps.node) if isinstance(n, ast.Return) and n.value is not None and not (isinstance(n.value, ast.Constant) and n.value.value is None)]
@@ -141,8 +154,14 @@ def r1(ctx):
     # slot binding
     init = ctx.func(W + ".__init__")
     slot = [s for s in util.store_sites(init.node) if s.kind == "attr" and s.target.attr == "_set_phasing_tags"]
-    ok = len(slot) == 1 and isinstance(slot[0].value, ast.IfExp) and atoms(slot[0].value.test, True) == {("'HP' == tag", True)} and u(slot[0].value.body) == "self._set_HP" and u(slot[0].value.orelse) == "self._set_PS"
-    ctx.ob(init.qual, "setter-slot-follows-tag", ok, init.loc(slot[0].stmt) if slot else init.loc(), "_set_phasing_tags is _set_HP iff tag == 'HP', else _set_PS" if ok else "setter slot binding does not follow the tag")
+    from rules.common import dispatch_table
+
+    table = dispatch_table(slot[0].value, "tag") if len(slot) == 1 else None
+    if len(slot) == 1 and table is None:
+        ctx.ob(init.qual, "setter-slot-follows-tag", None, init.loc(slot[0].stmt), "cannot read `%s` as a choice by tag" % u(slot[0].value)[:80])
+    else:
+        ok = table is not None and table.get("HP") == "self._set_HP" and (table.get("PS", table.get("<else>")) == "self._set_PS") and set(table) <= {"HP", "PS", "<else>"}
+        ctx.ob(init.qual, "setter-slot-follows-tag", ok, init.loc(slot[0].stmt) if slot else init.loc(), "_set_phasing_tags is _set_HP for tag 'HP' and _set_PS for 'PS'" if ok else "setter slot binding does not follow the tag: %s" % table)
     sh = ctx.func(W + ".setup_header")
     ok = any(isinstance(c, ast.Call) and isinstance(c.func, ast.Attribute) and c.func.attr == "add_line" and "PREDEFINED_FORMATS[self.tag]" in u(c) for c in ctx.prog.calls_in(sh.node))
     ctx.ob(sh.qual, "header-line-follows-tag", ok, sh.loc(), "the FORMAT definition of the written tag is added to the header" if ok else "header line for self.tag is not added")
@@ -282,7 +301,20 @@ def r4(ctx):
     loop = loops[0]
     var, gt, ph = [u(e) for e in loop.target.elts]
     adds = [c for c in ast.walk(loop) if isinstance(c, ast.Call) and isinstance(c.func, ast.Attribute) and c.func.attr == "add_variant"]
-    ctx.require(len(adds) == 2, "expected two add_variant sites (existing block / new block)")
+    ctx.require(len(adds) >= 1, "no add_variant site in phased_blocks_as_reads")
+    # locals that are just another name for the list of reads of the call's block
+    block_lists = set()
+    for n_ in ast.walk(loop):
+        if isinstance(n_, ast.Assign):
+            vtxt = u(n_.value)
+            names_ = [t.id for t in n_.targets if isinstance(t, ast.Name)]
+            stores_block = any(u(t) == "read_map[%s.block_id]" % ph for t in n_.targets)
+            if names_ and (vtxt in ("read_map.get(%s.block_id)" % ph, "read_map[%s.block_id]" % ph) or stores_block):
+                block_lists.update(names_)
+    for nm in list(block_lists):
+        for s_, v_ in util.assignments_to(fi.node, nm):
+            if not (isinstance(v_, ast.AST) and (u(v_) in ("read_map.get(%s.block_id)" % ph, "read_map[%s.block_id]" % ph) or any(u(t) == "read_map[%s.block_id]" % ph for t in getattr(s_, "targets", [])))):
+                block_lists.discard(nm)
     need = {("%s.is_homozygous()" % gt, False): "homozygous calls are skipped", ("%s in input_variant_set" % var, True): "variants not requested are skipped", ("None is %s" % ph, False): "unphased calls are skipped"}
     for c in adds:
         ga = guard_atoms(cfg, cfg.node_containing(c))
@@ -293,9 +325,9 @@ def r4(ctx):
         i_v, a_v = ([u(e) for e in inner.target.elts] if ok_loop else (None, None))
         args = [u(a) for a in c.args]
         recv = u(c.func.value)
-        if "read_map" in recv:
-            ok_recv = recv == "read_map[%s.block_id][%s]" % (ph, i_v)
-            branch = "existing-block"
+        if "read_map" in recv or (isinstance(c.func.value, ast.Subscript) and isinstance(c.func.value.value, ast.Name) and c.func.value.value.id in block_lists):
+            ok_recv = recv == "read_map[%s.block_id][%s]" % (ph, i_v) or (isinstance(c.func.value, ast.Subscript) and isinstance(c.func.value.value, ast.Name) and c.func.value.value.id in block_lists and u(c.func.value.slice) == i_v)
+            branch = "existing-block" if "read_map" in recv else "block-list:" + c.func.value.value.id
         else:
             # r = Read(...); r.add_variant(...); read_map[block].append(r) in index order
             rdef = util.single_def(inner, recv) if ok_loop else None
@@ -361,4 +393,4 @@ RULES = [
     ("C09.R3", "GT normalisation (sorted) precedes the setter for both tags", r3),
     ("C09.R4", "phased blocks -> complementary pseudo reads", r4),
 ]
-FLOORS = {"C09.R1": 15, "C09.R2": 8, "C09.R3": 2, "C09.R4": 13}
+FLOORS = {"C09.R1": 15, "C09.R2": 8, "C09.R3": 2, "C09.R4": 8}
